@@ -740,6 +740,35 @@ def option_map(check: Check, repo: Repo) -> None:
         check.ob(rule, fn, f"option {p}", ok,
                  f"switching it off removes exactly {sorted(removed)}" if ok else
                  f"switching it off removes {sorted(removed)} and adds {sorted(extra)}; expected a subset of {sorted(expect[p])}")
+    # independence: every combination removes the sum of what its switched-off options remove alone
+    import itertools
+
+    single = {}
+    for p in params:
+        env = dict(all_on)
+        env[p] = False
+        single[p] = Counter(base) - Counter(toks(_template_text(repo, mod, fn, env)))
+    bad = []
+    n_combos = 0
+    for bits in itertools.product((True, False), repeat=len(params)):
+        env = dict(all_on)
+        off = [p for p, b in zip(params, bits) if not b]
+        if len(off) < 2:
+            continue
+        for p in off:
+            env[p] = False
+        n_combos += 1
+        got = Counter(toks(_template_text(repo, mod, fn, env)))
+        want = Counter(base)
+        for p in off:
+            want = want - single[p]
+        if got != want:
+            delta = (got - want) + (want - got)
+            bad.append((off, sorted(t for t in delta if t not in "{}():")))
+    check.ob(rule, fn, f"options are independent ({n_combos} combinations of two or more switched-off options)", not bad,
+             "each combination removes exactly what its options remove one by one" if not bad else
+             f"{len(bad)} combinations deviate, e.g. with {bad[0][0]} off the query differs in {bad[0][1]}: "
+             "one option's fields depend on another option")
 
 
 RESOLVER_CLASS = {
@@ -1199,3 +1228,38 @@ def root_names_agree(check: Check, repo: Repo, rule: str = "ROOT-NAMES-AGREE") -
               and isinstance(c.comparators[0], ast.Constant) and isinstance(c.comparators[0].value, str) and unparse(c.left) == "type_name"}
     check.ob(rule, fn, "the same three names on both sides", names == bnames and len(names) == 3,
              f"{sorted(names)}" if names == bnames else f"printer {sorted(names)} vs builder {sorted(bnames)}")
+
+
+CLIENT_BUILDERS = {
+    "build_directive": "GraphQLDirective", "build_field": "GraphQLField", "build_argument": "GraphQLArgument",
+    "build_input_value": "GraphQLInputField", "build_interface_def": "GraphQLInterfaceType", "build_union_def": "GraphQLUnionType",
+    "build_input_object_def": "GraphQLInputObjectType",
+}
+
+
+def client_builds_from_data(check: Check, repo: Repo, rule: str = "CLIENT-FROM-DATA") -> None:
+    check.rule(
+        rule,
+        "build_client_schema constructs directives, fields, arguments, input fields, interfaces, unions and "
+        "input objects from the introspection result and from nothing else: every return of the corresponding "
+        "builder is a call of the element's class (only the *reserved* named types - built-in scalars and "
+        "introspection types, which cannot be declared differently - may be taken from the library). A "
+        "directive named like a specified one may be declared with another signature; substituting the "
+        "library's object makes the client schema differ from the schema that was introspected",
+    )
+    mod = repo.mod("utilities.build_client_schema")
+    n = 0
+    for name, cls in CLIENT_BUILDERS.items():
+        fn = _nested(mod.tree, name)
+        if fn is None:
+            raise AnalysisError(f"build_client_schema: nested builder {name} not found")
+        rets = [r for r in ast.walk(fn) if isinstance(r, ast.Return) and r.value is not None and enclosing_function(r) is fn]
+        for r in rets:
+            v = r.value
+            ok = isinstance(v, ast.Call) and call_name(v) == cls
+            n += 1
+            check.ob(rule, r, f"{name}: return {node_text(v, 50)}", ok,
+                     f"constructs {cls} from the introspected data" if ok else
+                     f"returns `{node_text(v, 60)}`, not a {cls}(...) built from the introspection result")
+    if n < 7:
+        raise AnalysisError("CLIENT-FROM-DATA: builder returns not found")
